@@ -725,6 +725,14 @@ class Interp:
     def ex_Set(self, e, fr):
         vals = self._elts(e.elts, fr)
         if deep_has_sym(vals):
+            # {x, y}: a set given by its characteristic array, when all elements are scalars of one sort
+            from .coll import SSet
+            if all(isinstance(v, SV) for v in vals) and len({v.e.sort() for v in vals}) == 1:
+                ec = self.engine.codec_for(vals[0])
+                chi = z3.K(ec.sort, z3.BoolVal(False))
+                for v in vals:
+                    chi = z3.Store(chi, ec.unwrap(v), z3.BoolVal(True))
+                return SSet(ec, chi)
             raise OutOfSubset("set display with symbolic elements", e)
         return set(vals)
 
